@@ -218,18 +218,31 @@ def check_prepare(P, R):
     if incs and cls_name:
         lab_st = next(st for st, t, v, k in stores(il) if isinstance(t, ast.Name) and t.id == cls_name)
         R.check(du.cfg.reach_avoiding(lab_st, incs[0], {il}) and not du.cfg.reach_avoiding(incs[0], lab_st, {il}), "IDX.route-counter", key, "label read before the counter advances", "", "the counter advances before the label is read: every statistic gets its successor's label")
-    # per-class labels use the same class ids as the per-class lists
-    alloc = [v for st, t, v, k in stores(f) if isinstance(v, ast.ListComp) and isinstance(v.elt, ast.List) and not v.elt.elts]
-    ok_alloc = any(isinstance(a.generators[0].iter, ast.Call) and src(a.generators[0].iter) == "range(n_classes)" for a in alloc)
+    # per-class labels use the same class ids as the per-class lists: both range over the same count expression
+    def empty_lists(v):
+        return isinstance(v, ast.ListComp) and isinstance(v.elt, ast.List) and not v.elt.elts and isinstance(v.generators[0].iter, ast.Call) and src(v.generators[0].iter.func) == "range" and len(v.generators[0].iter.args) == 1
+    alloc_rng = None
     for n in walk_no_nested(f.node):
-        if isinstance(n, ast.Assign) and isinstance(n.targets[0], ast.Tuple) and isinstance(n.value, ast.Tuple):
-            for vv in n.value.elts:
-                if isinstance(vv, ast.ListComp) and isinstance(vv.elt, ast.List) and not vv.elt.elts and src(vv.generators[0].iter) == "range(n_classes)":
-                    ok_alloc = True
-    R.check(ok_alloc, "IDX.route-alloc", key, "one list per class: [[] for _ in range(n_classes)]", "", "the per-class lists are not allocated one per class")
-    ylab = [v for st, t, v, k in stores(f) if isinstance(t, ast.Name) and t.id == "y" and isinstance(v, ast.ListComp)]
-    ok_y = any(src(v.generators[0].iter) == "range(n_classes)" and isinstance(v.elt, ast.Subscript) and "==" in src(v.elt.slice) and v.generators[0].target.id in src(v.elt.slice) for v in ylab)
-    R.check(ok_y, "IDX.route-labels", key, "y = [y[y == c] for c in range(n_classes)]", "labels regrouped with the same class ids, in the same order", "the per-class labels are not regrouped with the same class ids as the per-class statistics")
+        if isinstance(n, ast.Assign):
+            vals = n.value.elts if isinstance(n.value, ast.Tuple) else [n.value]
+            for vv in vals:
+                if empty_lists(vv):
+                    alloc_rng = src(vv.generators[0].iter.args[0])
+    R.check(alloc_rng is not None, "IDX.route-alloc", key, f"one list per class: [[] for _ in range({alloc_rng})]", "", "the per-class lists are not allocated one per class")
+    if alloc_rng is not None:
+        # the count is the number of distinct labels
+        cnt_ok = False
+        for st, t, v, k in stores(f):
+            if isinstance(t, ast.Name) and t.id == alloc_rng and isinstance(v, ast.Call) and src(v.func) == "len" and v.args and isinstance(v.args[0], ast.Call) and src(v.args[0].func).split(".")[-1] in ("set", "unique", "unique_labels"):
+                cnt_ok = True
+        R.check(cnt_ok, "IDX.route-alloc", key, f"{alloc_rng} = number of distinct labels", "", "the number of per-class lists is not the number of distinct labels")
+    ok_y = False
+    for st, t, v, k in stores(f):
+        if isinstance(t, ast.Name) and isinstance(v, ast.ListComp) and len(v.generators) == 1:
+            g = v.generators[0]
+            if isinstance(g.iter, ast.Call) and src(g.iter.func) == "range" and len(g.iter.args) == 1 and src(g.iter.args[0]) == alloc_rng and isinstance(g.target, ast.Name) and isinstance(v.elt, ast.Subscript) and isinstance(v.elt.slice, ast.Compare) and isinstance(v.elt.slice.ops[0], ast.Eq) and g.target.id in {x.id for x in ast.walk(v.elt.slice) if isinstance(x, ast.Name)} and src(v.elt.value) == src(v.elt.slice.left if not (isinstance(v.elt.slice.left, ast.Name) and v.elt.slice.left.id == g.target.id) else v.elt.slice.comparators[0]):
+                ok_y = True
+    R.check(ok_y, "IDX.route-labels", key, f"labels regrouped as [y[y == c] for c in range({alloc_rng})]", "same class ids, same order as the per-class statistics", "the per-class labels are not regrouped with the same class ids (and order) as the per-class statistics")
     # lengths and partitions in the same order
     za = lp.iter.args
     c0 = cone(du, za[0], lp, interproc=False) if za else None
